@@ -200,6 +200,11 @@ def l1_layout(s0: int, s1: int, s2: int, piece: int, reported: int = 0) -> bool:
         if isinstance(blob, _Pad) and blob.k > 3:
             ok = False
         produced += blob.k
+        # while a file is being streamed (chunks may already be attributed by the workers) its extent tracks exactly the
+        # bytes handed out so far
+        cur = state.current_file
+        if not isinstance(blob, _Pad) and (cur is None or cur.stream_end != produced or state.bytes_with_padding != produced):
+            ok = False
     if produced != state.bytes_with_padding:
         ok = False
     if len(state.files) != 3:
@@ -446,7 +451,8 @@ def roundtrip_case(sizes, kind, argcode, precode, conc, cfg, chunking):
     with world.scratch('c01') as d:
         src = d / 'src'
         (src / 'sub' / 'deep').mkdir(parents=True)
-        names = [src / 'a.bin', src / 'sub' / 'b.bin', src / 'sub' / 'deep' / 'cé.bin']
+        # third name: non-ASCII and not valid UTF-8 (a raw 0xff byte, as the file system allows)
+        names = [src / 'a.bin', src / 'sub' / 'b.bin', src / 'sub' / 'deep' / os.fsdecode(b'c\xc3\xa9\xff.bin')]
         for i, (p, s) in enumerate(zip(names, sizes)):
             p.write_bytes(world.content(kind, i, s))
             os.utime(p, ns=(1_500_000_000_123_456_789 + i, 1_400_000_000_987_654_321 + 1000 * i))
